@@ -58,8 +58,14 @@ def norm(v, name_of_key=None):
         return ("d", out)
     if isinstance(v, ExplainableObject):
         val = v.value
-        if getattr(val, "zone", None) is not None:
-            return ("o", "tz:" + val.zone)
+        import datetime as _dt
+        if isinstance(val, _dt.tzinfo):
+            # one canonical form whatever the implementation (pytz, zoneinfo, datetime.timezone)
+            name = getattr(val, "zone", None) or getattr(val, "key", None)
+            if name is None:
+                off = val.utcoffset(None)
+                name = "UTC" if off is not None and off.total_seconds() == 0 else f"offset:{off.total_seconds() / 60 if off is not None else val!r}"
+            return ("o", "tz:" + str(name))
         try:
             return ("o", json.dumps(val, sort_keys=True, default=str))
         except Exception:
